@@ -23,7 +23,17 @@ import (
 //   mayRoot: the context node may be the document node -> its string-value is not consumed;
 //   mayAttr: the context node may be an attribute       -> no absolute path is evaluated from it.
 
-type ctxFlags struct{ mayRoot, mayAttr bool }
+type ctxFlags struct {
+	mayRoot, mayAttr bool
+	kind             int // what the context node most likely is (steers the axis choice only)
+}
+
+const (
+	kElem = iota
+	kAttr
+	kText
+	kRoot
+)
 
 type exprGen struct {
 	r     *vh.Rng
@@ -31,6 +41,9 @@ type exprGen struct {
 	attrs []string // qualified attribute names present
 	vals  []string // text and attribute values present
 	feat  map[string]bool
+
+	rootName string
+	first    bool // the next step is the first step of an absolute path
 }
 
 func newExprGen(r *vh.Rng, d *docCtx) *exprGen {
@@ -54,9 +67,16 @@ func newExprGen(r *vh.Rng, d *docCtx) *exprGen {
 			add(sv, &g.vals, n.Data)
 		}
 	}
-	g.elems = append(g.elems, "nosuch", "a:nosuch")
-	g.attrs = append(g.attrs, "nosuch")
+	if len(g.attrs) == 0 {
+		g.attrs = append(g.attrs, "k")
+	}
 	g.vals = append(g.vals, "zzz")
+	for _, n := range d.xnodes {
+		if n.Type == xmlquery.ElementNode {
+			g.rootName = qname(n.Prefix, n.Data)
+			break
+		}
+	}
 	return g
 }
 
@@ -77,8 +97,17 @@ func (g *exprGen) lit() string {
 }
 
 func (g *exprGen) elemTest() string {
+	if g.first {
+		g.first = false
+		if g.r.Chance(0.7) {
+			return g.r.PickStr(g.rootName, "*", "node()")
+		}
+	}
 	switch c := g.r.Pick(10); {
 	case c < 5:
+		if g.r.Chance(0.07) {
+			return g.r.PickStr("nosuch", "a:nosuch", "b:x")
+		}
 		return g.elems[g.r.Pick(len(g.elems))]
 	case c < 7:
 		return "*"
@@ -93,6 +122,9 @@ func (g *exprGen) attrTest() string {
 	if g.r.Chance(0.3) {
 		return "*"
 	}
+	if g.r.Chance(0.07) {
+		return g.r.PickStr("nosuch", "a:nosuch")
+	}
 	return g.attrs[g.r.Pick(len(g.attrs))]
 }
 
@@ -106,41 +138,68 @@ func isNameTest(t string) bool { return t != "*" && t != "text()" && t != "node(
 func (g *exprGen) step(c ctxFlags, depth int, afterDSlash bool) (string, ctxFlags) {
 	r := g.r
 	var s, axis, test string
-	switch k := r.Pick(12); {
-	case k == 0:
-		axis, test, s = "self", "node()", "."
-	case k == 1:
-		axis, test, s = "parent", "node()", ".."
-	case k < 4:
-		axis, test = "attribute", g.attrTest()
+	// mostly steps that can select something from the kind of node the context is (85%), the
+	// rest unconstrained (the engine must answer "nothing" alike on both bindings)
+	w := axisWeight
+	if r.Chance(0.85) {
+		switch c.kind {
+		case kAttr:
+			w = []int{0, 0, 0, 12, 4, 3, 0, 0, 1, 1, 0, 3}
+		case kText:
+			w = []int{0, 0, 0, 8, 3, 2, 5, 5, 2, 2, 0, 2}
+		case kRoot:
+			w = []int{12, 6, 3, 0, 0, 0, 0, 0, 0, 0, 0, 1}
+		}
+	}
+	t := 0
+	for _, v := range w {
+		t += v
+	}
+	p := r.Pick(t)
+	i := 0
+	for p >= w[i] {
+		p -= w[i]
+		i++
+	}
+	axis = axes[i]
+	if axis == "attribute" {
+		test = g.attrTest()
+	} else {
+		test = g.elemTest()
+		if (axis == "parent" || axis == "ancestor" || axis == "ancestor-or-self") && test == "text()" {
+			test = "*"
+		}
+	}
+	s = axis + "::" + test
+	// abbreviated forms
+	switch {
+	case axis == "self" && test == "node()":
+		s = "."
+	case axis == "parent" && test == "node()":
+		s = ".."
+	case axis == "attribute" && r.Chance(0.7):
 		s = "@" + test
-	case k < 7:
-		axis, test = "child", g.elemTest()
+	case axis == "child" && r.Chance(0.7):
 		s = test
-	default:
-		t := 0
-		for _, w := range axisWeight {
-			t += w
-		}
-		p := r.Pick(t)
-		i := 0
-		for p >= axisWeight[i] {
-			p -= axisWeight[i]
-			i++
-		}
-		axis = axes[i]
-		if axis == "attribute" {
-			test = g.attrTest()
-		} else {
-			test = g.elemTest()
-		}
-		s = axis + "::" + test
 	}
 	g.feat["axis:"+axis] = true
 	if strings.Contains(test, ":") {
 		g.feat["prefixed-name-test"] = true
 	}
 	out := ctxFlags{}
+	switch {
+	case axis == "attribute":
+		out.kind = kAttr
+	case axis == "self" || (afterDSlash && axis == "child" && test == "node()"):
+		out.kind = c.kind
+		if test == "text()" {
+			out.kind = kText
+		}
+	case test == "text()":
+		out.kind = kText
+	default:
+		out.kind = kElem
+	}
 	out.mayAttr = axis == "attribute" || (c.mayAttr && (axis == "self" || axis == "ancestor-or-self" || axis == "descendant-or-self"))
 	if !isNameTest(test) {
 		switch axis {
@@ -161,7 +220,7 @@ func (g *exprGen) step(c ctxFlags, depth int, afterDSlash bool) (string, ctxFlag
 	if s == "." || s == ".." {
 		return s, out // abbreviated steps take no predicate in this grammar position
 	}
-	for np := 0; depth > 0 && np < 2 && r.Chance(0.35); np++ {
+	for np := 0; depth > 0 && np < 2 && r.Chance(0.3); np++ {
 		s += "[" + g.pred(out, depth-1) + "]"
 	}
 	return s, out
@@ -190,16 +249,21 @@ func (g *exprGen) relPath(c ctxFlags, n, depth int, ds bool) (string, ctxFlags) 
 // path returns a location path; absolute paths only where the context cannot be an attribute.
 func (g *exprGen) path(c ctxFlags, depth int) (string, ctxFlags) {
 	r := g.r
-	n := r.Between(1, 4)
+	n := r.Between(1, 3)
+	if r.Chance(0.15) {
+		n = 4
+	}
+	g.first = false
 	if !c.mayAttr {
 		switch r.Pick(5) {
 		case 0:
 			g.feat["absolute"] = true
-			s, f := g.relPath(ctxFlags{mayRoot: true}, n, depth, false)
+			g.first = true
+			s, f := g.relPath(ctxFlags{mayRoot: true, kind: kRoot}, n, depth, false)
 			return "/" + s, f
 		case 1:
 			g.feat["abbrev-//"] = true
-			s, f := g.relPath(ctxFlags{mayRoot: true}, n, depth, true)
+			s, f := g.relPath(ctxFlags{mayRoot: true, kind: kRoot}, n, depth, true)
 			return "//" + s, f
 		}
 	}
@@ -229,6 +293,29 @@ func (g *exprGen) pred(c ctxFlags, depth int) string {
 	r := g.r
 	g.feat["predicate"] = true
 	dotOK := !c.mayRoot
+	if (c.kind == kAttr || c.kind == kText) && dotOK && r.Chance(0.7) {
+		// an attribute or a text node: conditions on its own value, name and position
+		switch r.Pick(7) {
+		case 0, 1:
+			g.feat["string-compare"] = true
+			return "." + cmps[r.Pick(2)] + g.lit()
+		case 2:
+			g.feat["fn:contains"] = true
+			return "contains(., " + g.lit() + ")"
+		case 3:
+			g.feat["fn:starts-with"] = true
+			return "starts-with(., " + g.lit() + ")"
+		case 4:
+			g.feat["fn:string-length"] = true
+			return "string-length(.)" + cmps[r.Pick(len(cmps))] + fmt.Sprint(r.Between(0, 3))
+		case 5:
+			g.feat["positional"] = true
+			return r.PickStr("1", "2", "last()", "position()>1")
+		default:
+			g.feat["number-compare"] = true
+			return "number(.)" + cmps[r.Pick(len(cmps))] + fmt.Sprint(r.Between(0, 10))
+		}
+	}
 	switch k := r.Pick(22); {
 	case k < 3:
 		g.feat["positional"] = true
@@ -272,7 +359,13 @@ func (g *exprGen) pred(c ctxFlags, depth int) string {
 		return "not(" + g.pred(c, depth-1) + ")"
 	case k == 16 && depth > 0:
 		g.feat["and/or"] = true
-		return g.pred(c, depth-1) + r.PickStr(" and ", " or ") + g.pred(c, depth-1)
+		l := g.pred(c, depth-1)
+		if strings.Contains(l, "[") {
+			// a filter inside the left operand moves the shared context navigator
+			// (filterQuery.Select: t.Current().MoveTo(node)): the right operand may start anywhere
+			c = ctxFlags{mayRoot: true, mayAttr: true, kind: c.kind}
+		}
+		return l + r.PickStr(" and ", " or ") + g.pred(c, depth-1)
 	case k == 17:
 		g.feat["fn:string"] = true
 		return "string(" + g.valuePath(c, depth) + ")" + cmps[r.Pick(2)] + g.lit()
@@ -291,16 +384,24 @@ func (g *exprGen) pred(c ctxFlags, depth int) string {
 		return "string-length(" + g.valuePath(c, depth) + ")" + cmps[r.Pick(len(cmps))] + fmt.Sprint(r.Between(0, 3))
 	default:
 		g.feat["number-compare"] = true
-		return g.valuePath(c, depth) + cmps[r.Pick(len(cmps))] + fmt.Sprint(r.Between(0, 10))
+		if r.Chance(0.1) {
+			// node-set < number: the engine panics on a non-numeric node value (operator.go:120),
+			// on both bindings alike
+			return g.valuePath(c, depth) + cmps[r.Pick(len(cmps))] + fmt.Sprint(r.Between(0, 10))
+		}
+		return "number(" + g.valuePath(c, depth) + ")" + cmps[r.Pick(len(cmps))] + fmt.Sprint(r.Between(0, 10))
 	}
 }
 
 // nodeSetExpr returns an expression whose value is a node-set (what idr.MatchAll evaluates).
-func (g *exprGen) nodeSetExpr() string {
-	top := ctxFlags{mayRoot: true}
+func (g *exprGen) nodeSetExpr(kind int) string {
+	top := ctxFlags{mayRoot: true, kind: kind}
 	s, _ := g.path(top, 2)
 	if g.r.Chance(0.12) {
 		g.feat["union"] = true
+		if strings.Contains(s, "[") {
+			top.mayAttr = true // see pred: the left operand's filters move the context navigator
+		}
 		t, _ := g.path(top, 1)
 		s = s + " | " + t
 	}
@@ -309,8 +410,8 @@ func (g *exprGen) nodeSetExpr() string {
 
 // scalarExpr returns a boolean / number / string valued expression (Expr.Evaluate on both
 // navigators; idr.MatchAll has no scalar form).
-func (g *exprGen) scalarExpr() string {
-	top := ctxFlags{mayRoot: true}
+func (g *exprGen) scalarExpr(kind int) string {
+	top := ctxFlags{mayRoot: true, kind: kind}
 	r := g.r
 	g.feat["scalar"] = true
 	switch r.Pick(8) {
@@ -338,6 +439,56 @@ func (g *exprGen) scalarExpr() string {
 
 // ---- evaluation on both bindings ---------------------------------------------------------------
 
+// fixNav is the REPAIRED reference navigator (Model/Nav.v: run_dom true): xmlquery's navigator
+// with its two departures from the XPath data model corrected, and a count of how often the
+// correction was active in an evaluation:
+//
+//	Q1 Value() of the document node: xmlquery returns ""; repaired: the node's InnerText;
+//	Q2 MoveToRoot() on an attribute position: xmlquery keeps the attribute index; repaired: the
+//	   index is reset (MoveToParent, which only resets it, then MoveToRoot).
+//
+// When neither was active the evaluation is exactly xmlquery v1.3.1's (repair_conservative).
+type fixNav struct {
+	in   *xmlquery.NodeNavigator
+	hits *quirkHits
+}
+type quirkHits struct{ q1, q2 int }
+
+func newFixNav(n *xmlquery.Node) (*fixNav, *quirkHits) {
+	h := &quirkHits{}
+	return &fixNav{xmlquery.CreateXPathNavigator(n), h}, h
+}
+func (f *fixNav) NodeType() xpath.NodeType { return f.in.NodeType() }
+func (f *fixNav) LocalName() string        { return f.in.LocalName() }
+func (f *fixNav) Prefix() string           { return f.in.Prefix() }
+func (f *fixNav) Value() string {
+	if f.in.NodeType() == xpath.RootNode {
+		f.hits.q1++
+		return f.in.Current().InnerText()
+	}
+	return f.in.Value()
+}
+func (f *fixNav) Copy() xpath.NodeNavigator {
+	return &fixNav{f.in.Copy().(*xmlquery.NodeNavigator), f.hits}
+}
+func (f *fixNav) MoveToRoot() {
+	if f.in.NodeType() == xpath.AttributeNode {
+		f.hits.q2++
+		f.in.MoveToParent()
+	}
+	f.in.MoveToRoot()
+}
+func (f *fixNav) MoveToParent() bool        { return f.in.MoveToParent() }
+func (f *fixNav) MoveToNextAttribute() bool { return f.in.MoveToNextAttribute() }
+func (f *fixNav) MoveToChild() bool         { return f.in.MoveToChild() }
+func (f *fixNav) MoveToFirst() bool         { return f.in.MoveToFirst() }
+func (f *fixNav) MoveToNext() bool          { return f.in.MoveToNext() }
+func (f *fixNav) MoveToPrevious() bool      { return f.in.MoveToPrevious() }
+func (f *fixNav) MoveTo(o xpath.NodeNavigator) bool {
+	g, ok := o.(*fixNav)
+	return ok && f.in.MoveTo(g.in)
+}
+
 type exprCase struct {
 	Kind   string `json:"kind"` // "expr"
 	Doc    string `json:"doc"`
@@ -358,6 +509,8 @@ type exprOutcome struct {
 	RefVal  string `json:"ref_value,omitempty"`
 	IdrErr  string `json:"idr_err,omitempty"`
 	RefErr  string `json:"ref_err,omitempty"`
+	Q1      int    `json:"reference_repair_Q1_active,omitempty"`
+	Q2      int    `json:"reference_repair_Q2_active,omitempty"`
 	bad     string
 	n       int
 }
@@ -408,7 +561,9 @@ func evalExpr(d *docCtx, c *exprCase) *exprOutcome {
 			if err != nil {
 				panic("compile: " + err.Error())
 			}
-			out.RefVal = scalarString(ex.Evaluate(xmlquery.CreateXPathNavigator(xstart)))
+			nav, h := newFixNav(xstart)
+			defer func() { out.Q1, out.Q2 = h.q1, h.q2 }()
+			out.RefVal = scalarString(ex.Evaluate(nav))
 		})
 		out.IdrErr = guarded(func() {
 			ex, err := xpath.Compile(c.Expr)
@@ -429,9 +584,11 @@ func evalExpr(d *docCtx, c *exprCase) *exprOutcome {
 		if err != nil {
 			panic("compile: " + err.Error())
 		}
-		it := ex.Select(xmlquery.CreateXPathNavigator(xstart))
+		start, h := newFixNav(xstart)
+		defer func() { out.Q1, out.Q2 = h.q1, h.q2 }()
+		it := ex.Select(start)
 		for it.MoveNext() {
-			nav := it.Current().(*xmlquery.NodeNavigator)
+			nav := it.Current().(*fixNav).in
 			lbl, ok := d.xlabel[nav.Current()]
 			if !ok {
 				lbl = "?unknown-node"
@@ -441,10 +598,13 @@ func evalExpr(d *docCtx, c *exprCase) *exprOutcome {
 			}
 			out.RefHits = append(out.RefHits, hit{lbl, nav.Value()})
 		}
-		// the packaged entry point must return as many nodes
-		ns, err := xmlquery.QueryAll(xstart, c.Expr)
-		if err != nil || len(ns) != len(out.RefHits) {
-			panic(fmt.Sprintf("xmlquery.QueryAll returned %d nodes (err %v), its iterator %d", len(ns), err, len(out.RefHits)))
+		// the packaged entry point (xmlquery as it is) must return as many nodes whenever the
+		// repair was not active
+		if h.q1 == 0 && h.q2 == 0 {
+			ns, err := xmlquery.QueryAll(xstart, c.Expr)
+			if err != nil || len(ns) != len(out.RefHits) {
+				panic(fmt.Sprintf("xmlquery.QueryAll returned %d nodes (err %v), its iterator %d", len(ns), err, len(out.RefHits)))
+			}
 		}
 	})
 	out.IdrErr = guarded(func() {
@@ -479,7 +639,8 @@ func evalExpr(d *docCtx, c *exprCase) *exprOutcome {
 			return out
 		}
 		if a.Label == "/" {
-			// Q1: the reference reports "" for the document node; the IDR must report all text
+			// Q1 on a result node: xmlquery reports "" for the document node; the IDR must
+			// report all text of the tree
 			if a.Value != "" || b.Value != d.allTxt {
 				out.bad = fmt.Sprintf("result %d (document node): unexpected string-value", i)
 				return out
